@@ -725,21 +725,32 @@ class StateScenario(Scenario):
         keys = list(dict.keys(t.value))
 
         def k():
+            if keys and rng.random() < 0.12:
+                # an existing key spelled as an equal value of another type (1 / 1.0 / True address the same entry)
+                e = rng.choice(keys)
+                if type(e) is int:
+                    return float(e) if abs(e) < 2 ** 50 else e
+                if type(e) is bool:
+                    return int(e)
+                if type(e) is float and e == e and abs(e) < 2 ** 50 and e == int(e):
+                    return int(e)
             if keys and rng.random() < 0.3:
                 return rng.choice(keys)
-            return values.gen_value(rng, kf, "valid" if rng.random() < 0.8 else self._want(st, rng), st.ctx) if kf else rng.choice(["k1", "k2", "k3"])
+            if not kf:
+                return rng.choice(["k1", "k2", "k3", "k1", "k2", "k3", 1, 1.0, True, 0, 2])
+            return values.gen_value(rng, kf, "valid" if rng.random() < 0.8 else self._want(st, rng), st.ctx)
 
         def v():
             return values.gen_value(rng, vf, self._want(st, rng), st.ctx) if vf else rng.choice([1, "x", None, [1]])
 
         name = rng.choice(["setitem", "setitem", "update_dict", "update_pairs", "update_kwargs", "setdefault", "ior", "pop", "clear",
-                           "delitem", "popitem"])
+                           "delitem", "popitem", "update_copy_kwargs"])
         op = {"op": "dop", "path": t.path, "name": name}
         if name in ("setitem", "setdefault"):
             op["k"], op["v"] = enc(k()), enc(v())
         elif name in ("update_dict", "update_pairs", "ior"):
             op["pairs"] = [[enc(k()), enc(v())] for _ in range(rng.choice([0, 1, 2, 3]))]
-        elif name == "update_kwargs":
+        elif name in ("update_kwargs", "update_copy_kwargs"):
             op["pairs"] = [[rng.choice(["k1", "k2", "ab", "zz"]), enc(v())] for _ in range(rng.choice([1, 2]))]
         elif name in ("pop", "delitem"):
             op["k"] = enc(rng.choice(keys) if keys else "nokey")
@@ -1659,6 +1670,9 @@ class StateScenario(Scenario):
             _, err = self._call(lambda: d.update(list(pairs)))
         elif name == "update_kwargs":
             _, err = self._call(lambda: d.update(**{str(a): b for a, b in pairs}))
+        elif name == "update_copy_kwargs":
+            # a compatible proxy as the positional argument together with keyword entries
+            _, err = self._call(lambda: d.update(d.copy(), **{str(a): b for a, b in pairs}))
         elif name == "ior":
             _, err = self._call(lambda: d.__ior__(dict(pairs)))
         elif name == "pop":
